@@ -2,6 +2,8 @@ import DatamonVerif.Drv.C22
 import DatamonVerif.Drv.C21
 import DatamonVerif.Drv.Cafs
 import DatamonVerif.Drv.C04
+import DatamonVerif.Drv.C17
+import DatamonVerif.Drv.C19
 open DV
 
 def main (args : List String) : IO UInt32 := do
@@ -14,4 +16,6 @@ def main (args : List String) : IO UInt32 := do
   | ["model", "C04"] => loop C04.handler inp out C04.handler.init; return 0
   | ["model", "C21"] => loop C21.handler inp out C21.handler.init; return 0
   | ["model", "C22"] => loop C22.handler inp out C22.handler.init; return 0
+  | ["model", "C17"] => loop C17.handler inp out C17.handler.init; return 0
+  | ["model", "C19"] => loop C19.handler inp out C19.handler.init; return 0
   | _ => IO.eprintln "usage: dvdriver model <Cxx>"; return 2
